@@ -14,38 +14,39 @@ Proof.
   change (check_head s_head (s_head ++ text)) with (Ok (Some text)). cbn [rbind].
   rewrite Hp. cbn [rbind].
   destruct s; try contradiction; cbn [rbind f_stats f_lines f_errs app];
-    unfold clear_empty_alias; cbn [f_stats f_lines f_errs filter]; try reflexivity.
-  rewrite Hna. reflexivity.
+    unfold clear_empty_alias; cbn [f_stats f_lines f_errs clear_loop empty_alias rbind tl firstn fst snd app];
+    try reflexivity.
+  cbn [empty_alias] in Hna. rewrite Hna. reflexivity.
 Qed.
 
-Lemma embed_stat_valid s : embed_stat s <> SNotValid /\ empty_alias (embed_stat s) = false.
+Lemma embed_stat_valid nested s : embed_stat nested s <> SNotValid /\ empty_alias (embed_stat nested s) = false.
 Proof. destruct s; cbn; split; (discriminate || reflexivity). Qed.
 
 (* a documented line, as the comment line "-@..." of a one-line comment block *)
-Theorem stat_fragment_roundtrip : forall s lno,
-  doc_stat s = true -> enum_with_comment s = false ->
-  parse_fragment [(lno, s_head ++ show_line s)] = Ok (mkFrag [embed_stat s] [lno] []).
+Theorem stat_fragment_roundtrip : forall s lno, doc_stat s = true ->
+  parse_fragment [(lno, s_head ++ show_line s)] = Ok (mkFrag [embed_line s] [lno] []).
 Proof.
-  intros s lno Hd He. destruct (embed_stat_valid s) as [H1 H2].
+  intros s lno Hd. destruct (embed_stat_valid true s) as [H1 H2].
   apply one_line_fragment; [apply stat_roundtrip; assumption | exact H1 | exact H2].
 Qed.
 
-Theorem stat_fragment_roundtrip_plain : forall s lno,
-  doc_stat s = true -> enum_with_comment s = false -> stat_nested_array s = false ->
-  parse_fragment [(lno, s_head ++ show_line_plain s)] = Ok (mkFrag [embed_stat s] [lno] []).
+Theorem stat_fragment_roundtrip_plain : forall s lno, doc_stat s = true ->
+  parse_fragment [(lno, s_head ++ show_line_plain s)] = Ok (mkFrag [embed_line_plain s] [lno] []).
 Proof.
-  intros s lno Hd He Hn. rewrite (show_line_plain_eq s Hn). apply stat_fragment_roundtrip; assumption.
+  intros s lno Hd. destruct (embed_stat_valid false s) as [H1 H2].
+  apply one_line_fragment; [apply stat_roundtrip_plain; assumption | exact H1 | exact H2].
 Qed.
 
 (* the printer leg: "-@type " ++ TypeConvertStr a is read as the type a denotes *)
 Theorem printer_fragment : forall a lno, printer_guard a = true ->
   parse_fragment [(lno, s_head ++ k_type ++ type_convert_str a)]
-  = Ok (mkFrag [SType [(false, false, embed_one (abs a))] []] [lno] []).
+  = Ok (mkFrag [SType [(false, false, embed_type (abs a))] []] [lno] []).
 Proof.
   intros a lno Hg. pose proof (tcs_show (asize a) a (le_n _) Hg) as Ht.
   unfold printer_guard in Hg. apply printer_ok_inv in Hg as (Hd & _).
   pose proof (stat_fragment_roundtrip (DSType [(false, false, abs a)] None) lno) as H.
-  unfold show_line in H. cbn [show_stat show_tlist show_comment embed_stat embed_tlist comment_of fst snd app] in H.
-  rewrite !app_nil_r in H. rewrite Ht. apply H; [|reflexivity].
+  unfold show_line, embed_line in H.
+  cbn [show_stat show_tlist show_comment embed_stat embed_tlist comment_of fst snd app] in H.
+  rewrite !app_nil_r in H. rewrite Ht. apply H.
   cbn [doc_stat is_nil negb forallb snd andb]. rewrite Hd. reflexivity.
 Qed.
